@@ -175,9 +175,10 @@ def analyse(atoms):
     standard = True
     need = []
     for i in aadj:
-        if not atoms[i].arom:
-            standard = False        # ':' bond on an upper-case atom
+        if not atoms[i].arom and (atoms[i].bracket or atoms[i].elem not in ("C", "N", "O", "S", "P")):
+            standard = False        # ':' bond on a bracket / non-aromatic-capable upper-case atom
             continue
+        # an unbracketed upper-case C, N, O, S, P with explicit ':' bonds is the same atom as its lower-case spelling
         k = kekule.need_pi(atoms[i], bondsum[i])
         if k is None:
             standard = False
@@ -597,6 +598,21 @@ def run(task):
                     break
             if capped:
                 break
+        # the same systems with one atom written upper-case and its aromatic bonds spelled with ':' (every such atom,
+        # every start atom, first neighbour order)
+        if len(atoms) <= 10:
+            import copy
+            for k, a in enumerate(atoms):
+                if not a.arom or a.bracket:
+                    continue
+                atoms2 = [copy.copy(x) for x in atoms]
+                atoms2[k].arom = False
+                atoms2[k].text = a.text.upper()
+                for start in range(len(atoms)):
+                    for pol in POLICIES[:2]:
+                        order, parent = policy_traversal(adj, start, pol)
+                        spellings.append(spell(atoms2, bonds, adj, order, parent))
+                        spellings.append(spell(atoms2, bonds, adj, order, parent, sym_at_close=True))
         if capped:
             spellings = []
             for start in range(len(atoms)):
